@@ -82,6 +82,7 @@ impl Interpreter {
 //@fn Interpreter::match_script_bit
 //@fn Interpreter::next_impl
 //@fn Interpreter::run_impl
+//@wrapper Interpreter::run @ src/interpreter/mod.rs = Interpreter::run_impl
 }
 //@fncases Interpreter::match_opcode in impl Interpreter
 //@prooffn OpCodes::wire_values spec/opcode_table.rs @ src/script/op_codes.rs
